@@ -428,7 +428,9 @@ export function genRewrite(rng, params) {
     // with some of the tags, or a sub-union of them, named (`type Circle = "circle"; kind: Circle | "disc"`)
     const key = rng.pick(["kind", "t"]);
     const L = (v) => [A("lit"), [A("s"), v]];
-    const tagsA = rng.pick([["circle", "disc"], ["circle", "disc", "oval"]]), tagB = "square";
+    // (one time in three the second variant's tag is ALSO a tag of the first: a tag carried by every variant does not separate
+    // them, and the printer must see that through the alias as well)
+    const tagsA = rng.pick([["circle", "disc"], ["circle", "disc", "oval"]]), tagB = rng.chance(1, 3) ? tagsA[1] : "square";
     const mkU = (ms) => (ms.length === 1 ? ms[0] : [A("union"), ...ms]);
     const varA = (tag) => [A("obj"), [[key, A("false"), tag], ["r", A("false"), A("number")]], A("none")];
     const varB = [A("obj"), [[key, A("false"), L(tagB)], ["side", A("false"), A("number")]], A("none")];
@@ -603,13 +605,16 @@ function oddProject(rng) {
     }
     case 5: {
       // constants defined in terms of each other, and numeric literals beyond the range of a double
-      const shape = rng.pick(["const a = b;\nconst b = a;\ntype T = typeof a;", "const a = { k: b };\nconst b = { k: a };\ntype T = typeof a;",
+      const shape = rng.pick(rng.pick([["const a = b;\nconst b = a;\ntype T = typeof a;", "const a = { k: b };\nconst b = { k: a };\ntype T = typeof a;",
         "const a = [a];\ntype T = typeof a;", "const a = { ...b };\nconst b = { ...a };\ntype T = typeof b;", "const a = { k: 1 };\nconst b = { p: a, q: a };\ntype T = typeof b;",
-        "const a = { x: a.x };\ntype T = typeof a;", "const a = { x: { y: a.x } };\ntype T = typeof a;", "const a = { x: b.y };\nconst b = { y: a.x };\ntype T = typeof a;", "const a = { x: 1, y: a[\"x\"] };\ntype T = typeof a;",
+        "const a = { x: a.x };\ntype T = typeof a;", "const a = { x: { y: a.x } };\ntype T = typeof a;", "const a = { x: b.y };\nconst b = { y: a.x };\ntype T = typeof a;", "const a = { x: 1, y: a[\"x\"] };\ntype T = typeof a;"],
         // a negation that survives to the printer (Exclude of the top type): the answer is a module, never a panic
-        "type T = Exclude<unknown, Uint8Array>;", "type T = { x: Exclude<unknown, { a: string }> };", "type T = Exclude<unknown, string>[];", "type T = [Exclude<unknown, Date>, number];",
-        "type T = { x?: Exclude<unknown, undefined> };", "type T = Record<string, Exclude<unknown, number>>;", "type T = Exclude<unknown, string> & { a: 1 };",
-        "type T = 1e999 | 2;", "type T = -1e999;", "type T = { k: 1e400 };", "const inf = 1e999;\ntype T = typeof inf;", "type T = `${1e999}`;"]);
+        ["type T = Exclude<unknown, Uint8Array>;", "type T = { x: Exclude<unknown, { a: string }> };", "type T = Exclude<unknown, string>[];", "type T = [Exclude<unknown, Date>, number];",
+        "type T = { x?: Exclude<unknown, undefined> };", "type T = Record<string, Exclude<unknown, number>>;", "type T = Exclude<unknown, string> & { a: 1 };"],
+        // a would-be discriminator one of whose tags is carried by every variant, written through a named type
+        ["type Kind = \"a\" | \"b\";\ntype T = { kind: Kind; x: string } | { kind: \"b\"; y: number };", "enum Kind { A = \"a\", B = \"b\" }\ntype T = { kind: Kind; x: string } | { kind: Kind.B; y: number };",
+        "type K2 = \"b\";\ntype T = { kind: \"a\" | K2; x: string } | { kind: K2; y: number } | { kind: \"c\"; z: null };", "type Kind = \"a\" | \"b\";\ntype T = { t: Kind; x: string } | { t: Kind; y: number };"],
+        ["type T = 1e999 | 2;", "type T = -1e999;", "type T = { k: 1e400 };", "const inf = 1e999;\ntype T = typeof inf;", "type T = `${1e999}`;"]]));
       return [["entry.ts", shape + "\nparse.buildParsers<{ E0: T }>();\n"]];
     }
     case 6: {
